@@ -239,6 +239,8 @@ class Portfolio(IncrementalTrackingSolver):
         if self._ext_solver and self._ext_solver.is_alive():
             self._ext_solver.terminate()
             _debug("Previous solver killed")
+        # Nobody answers get_model / get_value until solve() succeeds again
+        self._ext_solver = None
 
     def _exit(self):
         self._close_existing()
